@@ -16,7 +16,7 @@ import (
 
 // C01, C02, C03: exhaustive enumeration of strategy.Deploy inputs (engine E1).
 //
-// One enumeration, three oracles. Alphabet (per candidate node): Capacity {1,2,3,MaxInt},
+// One enumeration, three oracles. Alphabet (per candidate node): Capacity {0,1,2,3,MaxInt},
 // Count {0,1,2,3}, (Usage,Rate) {(0,0),(0,.25),(.25,.25),(.5,.1)}; need {1..5,7};
 // limit {0,1,2,3}; the five strategies; every ordered list of n distinct names.
 // quick: all dimensions for n<=2, and for n=3 the dimensions the strategy reads plus one
@@ -39,7 +39,7 @@ type sCase struct {
 }
 
 var (
-	sCaps   = []int{1, 2, 3, math.MaxInt}
+	sCaps   = []int{0, 1, 2, 3, math.MaxInt}
 	sCounts = []int{0, 1, 2, 3}
 	sUR     = [][2]float64{{0, 0}, {0, .25}, {.25, .25}, {.5, .1}}
 	sNeeds  = []int{1, 2, 3, 4, 5, 7}
